@@ -42,6 +42,7 @@ func sessionRunner(prop string, nontrivial func(*World) bool) func(*Plan) *Resul
 func genC04(r *Rng, tier string, idx int) *Plan {
 	p := &Plan{SchedSeed: r.U64(), Policy: r.Intn(2), Mode: "concurrent"}
 	p.Spec = genSpec(r, genOpts{Filters: 1, AllowRedis: true, NoFetch: true})
+	p.Spec.HandlerMode = r.Chance(0.25)
 	p.Spec.IdPs[0].Knobs.LatencyUS = []int{0, 100, 1000}[r.Intn(3)]
 	id := 0
 	nid := func() int { id++; return id }
@@ -50,7 +51,7 @@ func genC04(r *Rng, tier string, idx int) *Plan {
 	attacker := 3
 	variants := []string{"", "", "", "reorder", "dup-state-forged-first", "dup-state-own-first", "dup-code", "case", "empty", "extra", "missing-code", "missing-state", "fragment"}
 	codeSrc := func() string { return r.Pick([]string{"own", "of:0", "of:1", "of:2", "forged"}) }
-	stateSrc := func() string { return r.Pick([]string{"own", "of:0", "of:1", "of:2", "forged", "near", "upper"}) }
+	stateSrc := func() string { return r.Pick([]string{"own", "of:0", "of:1", "of:2", "forged", "near", "upper", "truncated", "extended"}) }
 	cookie := func() string { return r.Pick([]string{"own", "of:0", "of:1", "held", "none", "garbage"}) }
 	crafted := func(b int) Op {
 		return Op{ID: nid(), Kind: "cb", B: b, S: cookie(), Args: map[string]string{"code": codeSrc(), "state": stateSrc(), "variant": r.Pick(variants)}}
@@ -226,6 +227,7 @@ func ntC11(w *World) bool { return w.Probes["successful-refreshes"] >= 1 }
 func genC13(r *Rng, tier string, idx int) *Plan {
 	p := &Plan{SchedSeed: r.U64(), Mode: "sequential"}
 	p.Spec = genSpec(r, genOpts{Filters: 1, AllowRedis: true, Logout: 0})
+	p.Spec.HandlerMode = r.Chance(0.2)
 	f := &p.Spec.Filters[0]
 	is := &p.Spec.IdPs[0]
 	f.ClientID = r.Pick([]string{"client", "cl ient", "a+b&c=d", "id/with?reserved#chars", "ünï-cödé", "100%25", "x;y,z", "sp  ace"})
